@@ -45,7 +45,7 @@ Deliverables, all under {wt}/_seed/ :
   3. notes.md    - what you changed, why it breaks the property, what it needs in order to manifest, what you ran.
 
 Before you finish you MUST have verified, yourself, in {wt}:
-  * demo.py exits non-zero with the patch and 0 without it (use `git stash` / `git apply -R` to toggle);
+  * demo.py exits non-zero with the patch and 0 without it (toggle ONLY with `git apply -R _seed/patch.diff` and `git apply _seed/patch.diff`; NEVER use `git stash`: all worktrees of this repository share one stash and other reviewers work next to you);
   * with the patch applied the full suite gives the same result as baseline:
       cd {wt} && PYTHONPATH={wt} /venv/bin/python -m pytest -q -p no:cacheprovider --timeout=900 --continue-on-collection-errors test 2>&1 | tail -8
     (takes 4-10 minutes; run the most relevant test files first while iterating). It must show 291 passed, 2 failed, 1 error.
